@@ -235,6 +235,16 @@ def give_seq_hash(cls):
 
 
 give_seq_hash(simthreading.Thread)
+# futures are kept in sets by concurrent.futures.wait()/as_completed()
+give_seq_hash(sim_cf_base.Future)
+
+
+def _acquire_futures_init(self, *futures):
+    # the stdlib orders the condition acquisitions by id(): address-dependent
+    self.futures = sorted(futures, key=hash)
+
+
+sim_cf_base._AcquireFutures.__init__ = _acquire_futures_init
 
 
 def _sim_excepthook(args):
